@@ -15,7 +15,7 @@ import sys
 import tempfile
 
 VERIF = os.path.dirname(os.path.dirname(os.path.abspath(__file__)))
-REPO = "/repo"
+REPO = os.environ.get("VERIF_REPO", "/repo")
 
 
 def sh(cmd, cwd=None, env=None, timeout=3600):
@@ -37,16 +37,18 @@ def main():
     claimed = [c["property_id"] for c in json.load(open(os.path.join(VERIF, "MANIFEST.json")))["checks"]]
     if "--props" in sys.argv:
         claimed = sys.argv[sys.argv.index("--props") + 1].split(",")
-    rc, out = sh("git status --short -- src", cwd=REPO)
-    if out.strip():
-        print("refusing: /repo has uncommitted changes in src:\n" + out)
-        return 2
+    import shutil
+    backup = tempfile.mkdtemp(prefix="seed-backup-")
+    shutil.copytree(os.path.join(REPO, "src"), os.path.join(backup, "src"))
     if confirm:
         wt = tempfile.mkdtemp(prefix="seed-eval-")
-        os.rmdir(wt)
         try:
-            rc, out = sh(f"git -C {REPO} worktree add -q --detach {wt} HEAD")
-            assert rc == 0, out
+            for item in ("Cargo.toml", "Cargo.lock", "src", "README.md"):
+                pth = os.path.join(REPO, item)
+                if os.path.isdir(pth):
+                    shutil.copytree(pth, os.path.join(wt, item))
+                elif os.path.exists(pth):
+                    shutil.copy(pth, os.path.join(wt, item))
             os.makedirs(os.path.join(wt, "tests"), exist_ok=True)
             sh(f"cp {demo} {wt}/tests/seed_demo.rs")
             env = {"CARGO_TARGET_DIR": os.path.join(wt, "target")}
@@ -55,7 +57,7 @@ def main():
             if rca != 0:
                 print("patch does not apply:", outa)
                 meta["confirmed"] = False
-                meta["confirm_error"] = "patch does not apply to /repo HEAD: " + outa[-500:]
+                meta["confirm_error"] = "patch does not apply to the repository HEAD: " + outa[-500:]
                 json.dump(meta, open(meta_path, "w"), indent=1)
                 return 2
             os.rename(os.path.join(wt, "tests", "seed_demo.rs"), os.path.join(wt, "seed_demo.rs.off"))
@@ -75,11 +77,11 @@ def main():
             if not meta["confirmed"]:
                 print((out0 if rc0 else out1 if rc1 else out2)[-1500:])
         finally:
-            sh(f"git -C {REPO} worktree remove --force {wt}")
+            shutil.rmtree(wt, ignore_errors=True)
     # run the checks on /repo with the patch applied
-    rc, out = sh(f"git -C {REPO} apply {patch}")
+    rc, out = sh(f"git apply {patch}", cwd=REPO)
     if rc != 0:
-        print("patch does not apply to /repo:", out)
+        print("patch does not apply to the repository:", out)
         return 2
     results = {}
     try:
@@ -89,11 +91,13 @@ def main():
             results[pid] = {"exit": rc, "lines": lines[:8]}
             print(pid, rc, *lines[:4], sep="\n   ")
     finally:
-        sh(f"git -C {REPO} checkout -- .")
+        shutil.rmtree(os.path.join(REPO, "src"))
+        shutil.copytree(os.path.join(backup, "src"), os.path.join(REPO, "src"))
+        shutil.rmtree(backup, ignore_errors=True)
     meta["checks_on_patched_repo"] = results
     meta["detected_by"] = sorted(p for p, r in results.items() if r["exit"] == 1)
     meta["undecided_in"] = sorted(p for p, r in results.items() if r["exit"] == 2)
-    rc, head = sh(f"git -C {REPO} log --format=%h -1")
+    rc, head = sh("git -C /repo log --format=%h -1")
     rc, vh = sh("git log --format=%h -1", cwd=VERIF)
     meta["evaluated_at"] = {"repo": head.strip(), "verif": vh.strip()}
     json.dump(meta, open(meta_path, "w"), indent=1)
